@@ -94,7 +94,6 @@ func VerifH_C32_eventID() {
 		m1.SetID(t0)
 		sym.Reach("rebuilt-after-SetID")
 	}
-	old := m1.ID()
 	m1.SetEpoch(idx.Epoch(e1))
 	m1.SetLamport(idx.Lamport(l1))
 	id1 := m1.Build(t1).ID()
@@ -108,7 +107,6 @@ func VerifH_C32_eventID() {
 	sym.Assert(id1.Epoch() == idx.Epoch(e1) && id1.Lamport() == idx.Lamport(l1), "Build: ID carries epoch and Lamport")
 	sym.Assert(id2.Epoch() == idx.Epoch(e2) && id2.Lamport() == idx.Lamport(l2), "SetID: ID carries epoch and Lamport")
 	sym.Assert(bytes.Equal(id1[8:], t1[:]) && bytes.Equal(id2[8:], t2[:]), "ID keeps the 24-byte tail")
-	sym.Assert(m1.ID() == old, "Build does not modify the mutable event")
 
 	c := bytes.Compare(id1.Bytes(), id2.Bytes())
 	ct := bytes.Compare(t1[:], t2[:])
